@@ -38,7 +38,7 @@ def C15(tier):
              cases_from=["MC_Partition_emit"], params={"strides": "1/2/-1/-3"}),
         dict(name="replay_release", family="sort", trace="Trace_Sort", trace_constants=FIX, profile="release",
              cases_from=["MC_Partition_emit"], params={"strides": "1/-3" if tier == "quick" else "1/2/-1/-3"}),
-        dict(name="random_dev", family="sort", trace="Trace_Sort", trace_constants=FIX, profile="dev",
+        dict(name="random_dev", family="sort", trace="Trace_Sort", trace_constants=FIX, profile="dev", chunk=5000,
              gen=dict(count=(3000, 30000), params={"kinds": "partition", "oor_den": "0"})),
     ]
     return dict(models=models, stages=stages, nontrivial=sort_nontrivial, exhaustive=True,
@@ -68,8 +68,8 @@ def C02(tier):
     stages = [
         dict(name="replay_dev", family="sort", trace="Trace_Sort", trace_constants=FIX, profile="dev",
              cases_from=["MC_Select_emit", "MC_Bulk_emit"], params={"strides": "1/-3" if tier == "quick" else "1/2/-1/-3"}),
-        dict(name="random_dev", family="sort", trace="Trace_Sort", trace_constants=FIX, profile="dev",
-             gen=dict(count=(4000, 40000), params={"kinds": "select/bulk", "oor_den": "0"})),
+        dict(name="random_dev", family="sort", trace="Trace_Sort", trace_constants=FIX, profile="dev", chunk=3000,
+             gen=dict(count=(4000, 24000), params={"kinds": "select/bulk", "oor_den": "0"})),
     ]
     return dict(models=models, stages=stages, nontrivial=sort_nontrivial, exhaustive=True,
                 rule="every complete behaviour (pattern, index or request list, pivot sequence) of MC_Select_emit / MC_Bulk_emit "
@@ -106,10 +106,10 @@ def C16(tier):
              params={"strides": "1"}),
         dict(name="replay_release", family="sort", trace="Trace_Sort", trace_constants=FIX, profile="release", cases_from=emits,
              params={"strides": "1"}),
-        dict(name="random_dev", family="sort", trace="Trace_Sort", trace_constants=FIX, profile="dev",
-             gen=dict(count=(2000, 20000), params={"oor_den": "2"})),
-        dict(name="random_release", family="sort", trace="Trace_Sort", trace_constants=FIX, profile="release",
-             gen=dict(count=(2000, 20000), params={"oor_den": "2"})),
+        dict(name="random_dev", family="sort", trace="Trace_Sort", trace_constants=FIX, profile="dev", chunk=3000,
+             gen=dict(count=(2000, 12000), params={"oor_den": "2"})),
+        dict(name="random_release", family="sort", trace="Trace_Sort", trace_constants=FIX, profile="release", chunk=3000,
+             gen=dict(count=(2000, 12000), params={"oor_den": "2"})),
         hist_stage("lookup_dev", gen=dict(count=(1200, 12000), params={"kinds": "index"})),
         hist_stage("lookup_release", profile="release", gen=dict(count=(1200, 12000), params={"kinds": "index"})),
     ]
@@ -205,8 +205,8 @@ def C18(tier):
              params={"types": "i8/i64/n64", "pair": "1"}),
         dict(name="pairs_random", family="quant", trace="Trace_Quant", profile="dev",
              gen=dict(count=(2500, 25000), params={"pair": "1"})),
-        dict(name="select_pairs", family="sort", trace="Trace_Sort", trace_constants=FIX, profile="dev",
-             gen=dict(count=(2500, 25000), params={"kinds": "bulkpair", "oor_den": "0"})),
+        dict(name="select_pairs", family="sort", trace="Trace_Sort", trace_constants=FIX, profile="dev", chunk=3000,
+             gen=dict(count=(2500, 15000), params={"kinds": "bulkpair", "oor_den": "0"})),
         num_stage("moments_and_axis_forms", "c06/c07", (3000, 30000)),
     ]
     return dict(models=[quantile_models(tier)[k] for k in (0, 1, 3)] + [
@@ -234,8 +234,8 @@ def C19(tier):
 
 def C03(tier):
     stages = [
-        dict(name="sort_frame", family="sort", trace="Trace_Sort", trace_constants=FIX, profile="dev",
-             gen=dict(count=(3000, 30000), params={"oor_den": "6"}), params={"frame": "1"}),
+        dict(name="sort_frame", family="sort", trace="Trace_Sort", trace_constants=FIX, profile="dev", chunk=3000,
+             gen=dict(count=(3000, 18000), params={"oor_den": "6"}), params={"frame": "1"}),
         dict(name="sort_frame_model", family="sort", trace="Trace_Sort", trace_constants=FIX, profile="dev",
              cases_from=["MC_Select_emit", "MC_Partition_emit"], params={"frame": "1", "strides": "2/-3"}),
         dict(name="quantile_frame", family="quant", trace="Trace_Quant", profile="dev", gen=dict(count=(2500, 25000))),
